@@ -8,6 +8,7 @@ import (
 	"go/constant"
 	"go/token"
 	"go/types"
+	"os"
 	"sort"
 	"strings"
 
@@ -307,7 +308,8 @@ type Arith struct {
 	atoms      map[string]ssa.Value // atom key -> defining value (for axioms)
 	lenOf      map[string]ssa.Value // "len:<key>" -> the container value
 	curIneqs   []Ineq               // inequalities of the proof in progress (for conditional axioms)
-	extraIneqs []Ineq               // case constraints of an enclosing min/max split
+	axiomDepth int
+	extraIneqs []Ineq // case constraints of an enclosing min/max split
 	curFacts   []Fact
 	nonneg     map[string]bool
 	is32bit    bool
@@ -548,6 +550,8 @@ func isEmptyStringConst(v ssa.Value) bool {
 
 // axioms derives unconditional inequalities for the atoms of a form.
 func (a *Arith) axioms(form Lin, seen map[string]bool) []Ineq {
+	a.axiomDepth++
+	defer func() { a.axiomDepth-- }()
 	var out []Ineq
 	for k := range form.T {
 		if seen[k] {
@@ -752,7 +756,15 @@ func (a *Arith) proveLE(form Lin, k int64, ineqs []Ineq, depth int) bool {
 		return false
 	}
 	all := append([]Ineq{}, ineqs...)
-	all = append(all, a.axioms(form, map[string]bool{})...)
+	seenAx := map[string]bool{}
+	all = append(all, a.axioms(form, seenAx)...)
+	// axioms about atoms that occur only in the known inequalities can bridge them to the goal
+	// (goal: len(x) >= 1; known: len(x)/2 >= 1; bridge: len(x)/2 <= len(x))
+	if a.axiomDepth == 0 { // the axiom generator itself proves side conditions: no bridging inside those
+		for _, q := range ineqs {
+			all = append(all, a.axioms(q.Form, seenAx)...)
+		}
+	}
 	for _, q := range all {
 		// use q scaled by s>0 such that at least one atom cancels
 		tried := map[int64]bool{}
@@ -871,6 +883,12 @@ func (a *Arith) proveWithPhis(form Lin, k int64, pt point, depth int, busy map[*
 				sub = append(sub, Ineq{substituteNoC(q.Form, key, el, &q.K), q.K})
 			}
 			sub = append(sub, a.ineqsFrom(efacts)...)
+			if os.Getenv("TWDEBUG") != "" {
+				fmt.Fprintf(os.Stderr, "phi-split %s edge %d: prove %s <= %d with %d ineqs (efacts %d)\n", key, i, nf.String(), k, len(sub), len(efacts))
+				for _, q := range sub {
+					fmt.Fprintf(os.Stderr, "     %s <= %d\n", q.Form.String(), q.K)
+				}
+			}
 			if a.proveLE(nf, k, sub, 4) {
 				continue
 			}
